@@ -12,6 +12,7 @@ Model values (type-directed, plain Python):
 """
 import datetime
 import hashlib
+import re
 
 from . import base58 as B
 from . import micheline_bin as MB
@@ -117,6 +118,9 @@ def address_from_bytes(b):
         raise ParseError('entrypoint not ascii')
     if eps == 'default':
         eps = ''
+    if eps and not re.fullmatch(r'[_0-9a-zA-Z][_0-9a-zA-Z.%@]*', eps):
+        # a name no Michelson annotation can spell (it can only come from altered bytes): what reading it gives is not fixed
+        raise Uncertain('entrypoint name outside the annotation alphabet')
     return (a, eps)
 
 
